@@ -3,7 +3,7 @@
 (* from a small universe (at x0000, in user space, touching each other, ending *)
 (* at xFDFF; initialized and reserved words in every arrangement of up to      *)
 (* three words) loaded into a machine whose neighbouring words were or were    *)
-(* not initialized before, Machine!LoadBlocks sets exactly the file's          *)
+(* not (or only partially) initialized before, Machine!LoadBlocks sets exactly the file's          *)
 (* initialized words, marks its reserved words uninitialized and leaves every  *)
 (* other word, the registers and the PC alone.  Every case is printed for the  *)
 (* harness to perform with the real load_obj_file (`lc3v replay load`).        *)
@@ -22,7 +22,7 @@ BaseRdMC(b, a) == W(0, 0)
 Dev(k) == [k |-> k, ie |-> FALSE, val |-> 0, time |-> 0, en |-> FALSE, lo |-> 0, hi |-> 0, vect |-> 0, prio |-> 0, slot |-> 0]
 Mk(pre, o) ==
   [pc |-> 12288, psr |-> 32770, reg |-> [i \in 1..8 |-> W(i, 65535)], ssp |-> W(12288, 65535),
-   memw |-> IF pre THEN [a \in Around(o) |-> W(4369, 65535)] ELSE <<>>,
+   memw |-> IF pre = 0 THEN <<>> ELSE [a \in Around(o) |-> W(4369, IF pre = 1 THEN 65535 ELSE 65280)],    \* pre = 2: partially initialized words
    dirty |-> <<>>, mcr |-> FALSE, prefetch |-> FALSE, fno |-> 0, dbgf |-> FALSE, frames |-> <<>>,
    icount |-> 0, obs |-> <<>>, kbd |-> <<>>, disp |-> <<>>,
    devs |-> <<Dev("null"), Dev("kbd"), Dev("disp")>>, ports |-> (65024 :> 1) @@ (65026 :> 1) @@ (65028 :> 2) @@ (65030 :> 2),
@@ -33,7 +33,7 @@ Mk(pre, o) ==
 
 VARIABLES pre, obj, phase
 vars == <<pre, obj, phase>>
-Init == pre \in BOOLEAN /\ obj \in { o \in Objects : ObjOK(o) } /\ phase = "load"
+Init == pre \in 0..2 /\ obj \in { o \in Objects : ObjOK(o) } /\ phase = "load"
 Next == phase = "load" /\ phase' = "chk" /\ UNCHANGED <<pre, obj>>
 Spec == Init /\ [][Next]_vars
 
@@ -51,5 +51,5 @@ LoadOK ==
     /\ t.reg = s.reg /\ t.pc = s.pc /\ t.psr = s.psr /\ t.ssp = s.ssp
 RECURSIVE Flat(_, _)
 Flat(o, k) == IF k > Len(o) THEN <<>> ELSE <<o[k].s, Len(o[k].w)>> \o o[k].w \o Flat(o, k + 1)
-Emit == phase = "chk" => PrintT(<<"HIST", <<IF pre THEN 1 ELSE 0, Len(obj)>> \o Flat(obj, 1)>>)
+Emit == phase = "chk" => PrintT(<<"HIST", <<pre, Len(obj)>> \o Flat(obj, 1)>>)
 =============================================================================
